@@ -561,6 +561,7 @@ def _gen_type(rng, o, depth, ctx):
     fields = []
     used = set()
     prev_req = True
+    reuse_tags = rng.random() < 0.6
     for i in range(n):
         pres = 'req'
         pr = rng.random()
@@ -593,6 +594,11 @@ def _gen_type(rng, o, depth, ctx):
                 dv = ('r', dv[1], dv[2], max(-300, min(300, dv[3])))
         fields.append(('f%d' % i, ft, pres, dv))
         prev_req = pres == 'req'
+        if k == 'seq' and prev_req and reuse_tags:
+            # X.680 only wants the tags of a run of OPTIONAL/DEFAULT components and of the mandatory component that
+            # ends it to differ: behind a mandatory component the same tags may come again (a INTEGER OPTIONAL,
+            # b BOOLEAN, c INTEGER OPTIONAL), which is what real-world schemas do all the time
+            used.clear()
     T = (k, tuple(fields))
     return wrap_tags(rng, o, T)
 
